@@ -206,14 +206,14 @@ SPECS = {
         "stub": ["RecordingBackend", "SimExecutor (parked real thread, released at plan-chosen points)", "simulated datetime for the run name", "SimMDP in some classes"],
     },
     "C02": {
-        "scenarios": [{"name": "rollout", "runs": {"quick": 12, "thorough": 1000000}, "chunks": {"quick": 1, "thorough": 1}}],
+        "scenarios": [{"name": "rollout", "runs": {"quick": 8, "thorough": 1000000}, "chunks": {"quick": 1, "thorough": 1}}],
         "budget_s": {"quick": 900, "thorough": 2400},
         "rule": "one evaluation = one seeded auto-reset rollout (50..600 steps) of a built-in environment (constructor variant, optional wrapper "
         "stack) driven by a seeded adversary action schedule (uniform samples / long hold of the low or high bound corner / alternation between "
         "opposite corners with a drawn period / mixed corners); invariants after every step: observation in the declared space with canonical "
         "shape and dtype and no NaN, generated action in the action space, finite float scalar reward, boolean scalar flags; non-trivial = an "
         "episode end or a bound-corner action occurred; distinct = distinct (environment class, adversary mode, fired event kinds)",
-        "assumptions": ["quick tier: 5 classic-control environments (Euler and Tsit5) + 3 MuJoCo; thorough tier: all 11 MuJoCo and the 3 Unitree G1 tasks",
+        "assumptions": ["both tiers: 5 classic-control environments (Euler and Tsit5 variants), all 11 MuJoCo environments and the 3 Unitree G1 tasks; the thorough tier runs them longer",
                         "Python-side-state independence is decided by the re-execution digests (same process) of the driver"],
         "real": ["all built-in environments incl. diffrax solves and mjx.step, wrappers over them, spaces' contains/sample"],
         "stub": ["adversary action schedule"],
